@@ -77,6 +77,7 @@ class C18(PropertyCheck):
             "random": gen_pubsub.random_scripts(rng, 60 if q else 1500, 14, "r"),
             "random_v": gen_pubsub.random_scripts(rng, 120 if q else 3000, 20, "v", kinds_pool="v"),
             "malformed": gen_pubsub.random_scripts(rng, 60 if q else 1000, 10, "m", malformed=True, kinds_pool="vt", burst=False),
+            "unsub": gen_pubsub.unsub_scripts("u"),
             "close": gen_pubsub.close_scripts("k"),
         }
 
@@ -138,7 +139,9 @@ class C18(PropertyCheck):
                 "one write of a frame to a net.Conn is atomic and a connection's frames are written by one goroutine (outbox.go)",
                 "adopted where statement and docs are silent: a pattern subscriber is told the pattern, not the channel; UNSUBSCRIBE "
                 "confirmations are numbered 1..n and sent only for subscriptions that existed (Test_HandleUnsubscribe); PUBSUB CHANNELS "
-                "and NUMSUB count patterns too (Test_HandleSubscribe); PUBLISH replies +OK; the UNSUBSCRIBE reply (returned to the "
+                "and NUMSUB count patterns too (Test_HandleSubscribe): NUMSUB n = subscribers of the channel n + subscribers of the pattern n, so "
+                "one connection holding both counts twice although the docs say 'how many clients' (Example C18_numsub_counts_subscriptions); "
+                "PUBLISH replies +OK; the UNSUBSCRIBE reply (returned to the "
                 "caller) is not ordered with respect to frames still queued for that connection"]
 
 if __name__ == "__main__":
